@@ -115,6 +115,11 @@ func (f AmmoFile) ExpectedPass(confHeaders []KV) []Expect {
 				x.Header.Set("Content-Length", fmt.Sprint(len(e.Body)))
 			}
 		case "jsonline":
+			if x.Method == "" {
+				// an entry that leaves the method out is a GET (net/http's convention, which the
+				// decoder's own method validator spells out)
+				x.Method = "GET"
+			}
 			for _, kv := range e.Headers {
 				x.Header.Set(kv.K, kv.V)
 			}
@@ -245,6 +250,9 @@ func (f AmmoFile) Render() []byte {
 			}
 			e := it.Entry
 			o := map[string]any{"method": e.Method, "uri": e.URI}
+			if e.Method == "" && len(e.URI)%2 == 0 {
+				delete(o, "method")
+			}
 			if e.Host != "" || rng.Intn(2) == 0 {
 				o["host"] = e.Host
 			}
@@ -441,6 +449,9 @@ func GenAmmoFile(rng *rand.Rand, format string, maxEntries int, vidBase int) Amm
 			}
 		case "jsonline":
 			e.Method = methods[rng.Intn(len(methods))]
+			if rng.Intn(10) == 0 {
+				e.Method = "" // left out (or written as ""): GET
+			}
 			if rng.Intn(3) != 0 {
 				e.Host = "js" + genToken(rng, 3, "abcdef") + ".example.org"
 			}
